@@ -46,6 +46,7 @@ namespace bxdecay0 {
                     double c3_,
                     double c4_)
   {
+    BXDECAY0_VERIF_SCOPE("beta1", Qbeta_, Zdtr_, tcnuc_, thnuc_, c1_, c2_, c3_, c4_);
     parbeta1 pars1;
     pars1.Zdtr  = Zdtr_;
     pars1.Qbeta = Qbeta_;
@@ -83,6 +84,7 @@ namespace bxdecay0 {
       E  = 50.e-6 + (Qbeta - 50.e-6) * prng_();
       fe = decay0_funbeta1(E, params_);
       f  = fm * prng_();
+      BXDECAY0_VERIF_NOTE("beta_trial", E, f, fe, fm);
     } while (f > fe);
     bxdecay0::particle_code np;
     if (Zdtr >= 0.) {
